@@ -232,3 +232,81 @@ package netpoll
 //@   loop 2 invariant forall m *linkBufferNode :: !(inb(b, m) && m.ord > b.write.ord && (node == nil || m.ord < node.ord)) ==> sameslice(m.buf, old(m.buf)) && m.refer == old(m.refer)
 //@   loop 2 invariant forall m *linkBufferNode :: m == b.write ==> m.malloc <= old(m.malloc) && m.malloc >= len(m.buf)
 //@   loop 2 invariant b.mallocSize == n && mpos(b) - fpos(b) == n
+
+//@ func (*UnsafeLinkBuffer).Flush
+//@   property C01 C04 C16
+//@   requires wf(b)
+//@   ensures err == nil && wf(b) && others(b) && b.mallocSize == 0 && b.length == old(b.length) + old(b.mallocSize)
+//@   ensures rpos(b) == old(rpos(b)) && fpos(b) == old(mpos(b))
+//@   modifies b.mallocSize, b.write, b.flush, b.length, linkBufferNode.next, linkBufferNode.buf, linkBufferNode.own, linkBufferNode.ord, linkBufferNode.sp
+//@   ghost after store next#1: attach(b, b.write, value)
+//@   loop 1 invariant wfcur(b) && wflin(b) && wfclosed(b) && wfuniq(b) && wfnode(b) && wfpos(b) && others(b) && b.flush == old(b.flush)
+//@   loop 1 invariant b.length == old(b.length) && rpos(b) == old(rpos(b)) && mpos(b) == old(mpos(b)) && n >= 0
+//@   loop 1 invariant node != b.write.next ==> inb(b, node) && b.flush.ord <= node.ord && node.ord <= b.write.ord && n == node.sp + len(node.buf) - old(fpos(b))
+//@   loop 1 invariant node == b.write.next ==> n == mpos(b) - old(fpos(b))
+//@   loop 1 invariant forall m *linkBufferNode :: inb(b, m) && m.ord < b.flush.ord ==> len(m.buf) == m.malloc
+//@   loop 1 invariant forall m *linkBufferNode :: inb(b, m) && m.ord > b.write.ord ==> len(m.buf) == m.malloc && len(m.buf) == m.off
+//@   loop 1 invariant forall m *linkBufferNode :: inb(b, m) && b.flush.ord <= m.ord && m.ord <= b.write.ord && (node == b.write.next || m.ord < node.ord) ==> len(m.buf) == m.malloc
+//@   loop 1 invariant forall m *linkBufferNode :: inb(b, m) && b.flush.ord < m.ord && m.ord <= b.write.ord && !(node == b.write.next || m.ord < node.ord) ==> len(m.buf) == m.off
+
+//@ func (*UnsafeLinkBuffer).WriteBinary
+//@   property C01 C03
+//@   requires wf(b)
+//@   ensures old(len(p) == 0) ==> n == 0 && err == nil && unchanged(UnsafeLinkBuffer.mallocSize, UnsafeLinkBuffer.write, linkBufferNode.malloc, linkBufferNode.next, linkBufferNode.buf)
+//@   ensures old(len(p) > 0) ==> n == len(p) && err == nil && wf(b) && others(b) && b.mallocSize == old(b.mallocSize) + len(p) && b.length == old(b.length) && rpos(b) == old(rpos(b)) && fpos(b) == old(fpos(b))
+//@   ensures old(len(p) > 4096) ==> b.write.mode & 1 == 1 && b.write.buf#arr == p#arr && b.write.buf#base == p#base
+//@   ensures old(len(p) > 0 && len(p) <= 4096) ==> b.write.mode & 1 == 0
+//@   modifies b.mallocSize, b.write, linkBufferNode.next, linkBufferNode.malloc, linkBufferNode.buf, linkBufferNode.own, linkBufferNode.ord, linkBufferNode.sp, mem
+//@   ghost after store next#1: attach(b, b.write, value)
+
+//@ func (*UnsafeLinkBuffer).WriteString
+//@   property C01 C03
+//@   requires wf(b)
+//@   ensures old(len(s) == 0) ==> n == 0 && err == nil && unchanged(UnsafeLinkBuffer.mallocSize, UnsafeLinkBuffer.write, linkBufferNode.malloc, linkBufferNode.next, linkBufferNode.buf)
+//@   ensures old(len(s) > 0) ==> n == len(s) && err == nil && wf(b) && others(b) && b.mallocSize == old(b.mallocSize) + len(s) && b.length == old(b.length) && rpos(b) == old(rpos(b)) && fpos(b) == old(fpos(b))
+//@   modifies b.mallocSize, b.write, linkBufferNode.next, linkBufferNode.malloc, linkBufferNode.buf, linkBufferNode.own, linkBufferNode.ord, linkBufferNode.sp, mem
+
+//@ func (*UnsafeLinkBuffer).WriteByte
+//@   property C01
+//@   requires wf(b)
+//@   ensures err == nil && wf(b) && others(b) && b.mallocSize == old(b.mallocSize) + 1 && b.length == old(b.length) && rpos(b) == old(rpos(b)) && fpos(b) == old(fpos(b))
+//@   modifies b.mallocSize, b.write, linkBufferNode.next, linkBufferNode.malloc, linkBufferNode.own, linkBufferNode.ord, linkBufferNode.sp, mem
+
+// ---- the book/ack pair the poller uses on the input buffer ----
+// nopend: nothing pending, and no caller-memory node with spare capacity (true of a connection's input
+// buffer between two reads of the poller: it is only ever filled through book/bookAck)
+//@ pred nopend(b *UnsafeLinkBuffer) = b.mallocSize == 0 && (forall m *linkBufferNode :: inb(b, m) && m.ord >= b.flush.ord ==> m.malloc == len(m.buf))
+//@     && (forall m *linkBufferNode :: inb(b, m) && m.mode & 1 != 0 ==> cap(m.buf) == 0)
+// booked(b, l): wf except that l bytes are booked on the write node and not counted in mallocSize
+//@ pred booked(b *UnsafeLinkBuffer, l int) = wfs(b) && b.length == fpos(b) - rpos(b) && b.mallocSize == 0
+//@     && b.write.malloc - len(b.write.buf) == l && mpos(b) - fpos(b) == l
+//@     && (forall m *linkBufferNode :: inb(b, m) && m.ord >= b.flush.ord && m != b.write ==> m.malloc == len(m.buf))
+//@     && (forall m *linkBufferNode :: inb(b, m) && m.mode & 1 != 0 ==> cap(m.buf) == 0)
+
+//@ func (*UnsafeLinkBuffer).book
+//@   property C04
+//@   requires wf(b) && nopend(b) && bookSize >= 1 && maxSize >= 1
+//@   ensures booked(b, len(p)) && others(b) && len(p) >= 1 && len(p) <= bookSize && b.length == old(b.length) && rpos(b) == old(rpos(b)) && fpos(b) == old(fpos(b))
+//@   ensures p#arr == b.write.buf#arr && p#base == b.write.buf#base + len(b.write.buf) && b.write.mode & 1 == 0
+//@   modifies b.write, linkBufferNode.next, linkBufferNode.malloc, linkBufferNode.own, linkBufferNode.ord, linkBufferNode.sp
+//@   ghost after store next#1: attach(b, b.write, value)
+
+//@ func (*UnsafeLinkBuffer).bookAck
+//@   property C04
+//@   requires 0 <= n && booked(b, b.write.malloc - len(b.write.buf)) && n <= b.write.malloc - len(b.write.buf)
+//@   ensures err == nil && wf(b) && nopend(b) && b.length == old(b.length) + n && length == b.length && rpos(b) == old(rpos(b)) && fpos(b) == old(fpos(b)) + n
+//@   ensures forall m *linkBufferNode :: m != b.write ==> m.malloc == old(m.malloc) && sameslice(m.buf, old(m.buf))
+//@   modifies b.flush, b.length, linkBufferNode.malloc, linkBufferNode.buf
+
+//@ func (*UnsafeLinkBuffer).resetTail
+//@   property C04
+//@   requires wf(b) && nopend(b)
+//@   ensures wf(b) && nopend(b) && others(b) && b.length == old(b.length) && rpos(b) == old(rpos(b)) && fpos(b) == old(fpos(b))
+//@   modifies b.write, b.flush, linkBufferNode.next, linkBufferNode.own, linkBufferNode.ord, linkBufferNode.sp
+//@   ghost after store next#1: attach(b, b.write, value)
+
+//@ func (*UnsafeLinkBuffer).calcMaxSize
+//@   property C04
+//@   requires wf(b)
+//@   ensures sum >= 0
+//@   loop 1 invariant inb(b, node) && node.ord <= b.read.ord && sum >= 0
